@@ -30,9 +30,14 @@ Definition w_of (s : st) : world := mkW (circuits s) (next_id s).
 Definition to_st (e : ep) (w : world) : st :=
   mkSt (e_settings e) (is_some (e_tc e)) (e_hops e) (e_queue e) (w_circuits w) (w_next w).
 
+(* the deque's maxlen is not part of the hand model's state (it is the constant SEND_QUEUE_MAXLEN there): a run of
+   generated code that leaves the endpoint with a deque of another bound (or none) is not a step of the model *)
+Definition bound_kept (e : ep) : bool :=
+  match e_qmax e with Some n => n =? SEND_QUEUE_MAXLEN | None => false end.
+
 Definition exec (m : M unit) (s : st) : res (st * list out) :=
   match m (mkGS (ep_of s) (w_of s) [] []) with
-  | Ok (_, g) => Ok (to_st (g_ep g) (g_w g), g_outs g)
+  | Ok (_, g) => if bound_kept (g_ep g) then Ok (to_st (g_ep g) (g_w g), g_outs g) else Raise AssertionError
   | Raise e => Raise e
   end.
 
